@@ -27,15 +27,16 @@ PROPS = {
     "C11": {
         "manifest": {
             "text": "Lean theorems on length-abstracted ownership twins (ids + lengths, contents erased) of the response writer, the "
-                    "BodyReader and the parser cache: for every op sequence and every environment answer the heap with a live set "
+                    "BodyReader, the parser cache and the core Conn write queue: for every op sequence and every environment answer the heap with a live set "
                     "never records a double free or use after free and owner fields never share a buffer; tied to the code by comparing "
                     "the twin's Malloc/Append/Free/conn.Write trace with the trace of a tracking allocator installed through the public "
                     "allocator interface (mempool.DefaultMemPool, Config.BodyAllocator); the tracker's own verdicts (poison, live set, "
                     "recording conn) are the direct oracles",
-            "note": "HTTP side and core-conn side here; the websocket side shares harness/internal/track (props of the ws family)",
+            "note": "HTTP side (response, parser cache, BodyReader) and core Conn write queue here; the websocket side shares "
+                    "harness/internal/track (props of the ws family)",
             "technique": "Lean 4 proof (ownership invariant by induction over op sequences) + differential trace correspondence + tracking allocator"},
         "lean": ["NbioVerif.Properties.C11"], "drivers": ["respdrv"], "harness": ["hresp"],
-        "runs": [dict(RESP_RUN, fields=["n", "err", "tr", "rd", "cache"])],
+        "runs": [dict(RESP_RUN, fields=["n", "err", "tr", "rd", "cache", "q"])],
         "oracles": ["c11-"],
         "rule": "same stream as C09; distinct by hash of (config, op-kind sequence with conn writes per op, framing); non-trivial iff a conn "
                 "write happened before the final flush (a buffer changed hands or was flushed and reused)",
